@@ -113,6 +113,9 @@ def work(task):
     viol = []
     sels = selectors(ch)
     cache = {}
+    top = 2 ** (8 * sw - 1) - 1
+    prime_loud = encode([tuple([top] * ch)] * (n + 3), sw)
+    prime_quiet = encode([tuple([0] * ch)] * (n + 2), sw)
 
     def validator(thr, sel):
         k = (thr, sel if not isinstance(sel, float) else ("f", sel))
@@ -158,7 +161,12 @@ def work(task):
                 cov["evaluations"] += 1
                 exp = expected(ms, db, thr)
                 try:
-                    got = bool(validator(thr, sel).is_valid(data))
+                    v = validator(thr, sel)
+                    if wi % 4 == 0:
+                        # history must not matter: first a longer loud window, a longer silent one
+                        v.is_valid(prime_loud)
+                        v.is_valid(prime_quiet)
+                    got = bool(v.is_valid(data))
                 except Exception as exc:
                     got = "raised %r" % (exc,)
                 if exp is None:
